@@ -328,8 +328,13 @@ def main_parent(prop: str, tier: str, replay: str | None) -> int:
     reach_missing: list[str] = []
     if not replay:
         for name, need in mod.required_reach(tier).items():
-            if counters.get(name, 0) < need:
-                reach_missing.append(f"{name}={counters.get(name, 0)}<{need}")
+            if name.startswith("#"):  # number of distinct counters with this prefix
+                have = sum(1 for k in counters if k.startswith(name[1:]) and counters[k] > 0)
+                counters[name] = have
+            else:
+                have = counters.get(name, 0)
+            if have < need:
+                reach_missing.append(f"{name}={have}<{need}")
 
     # ---- classify
     known = load_known()
